@@ -36,6 +36,7 @@ type c06Tpl struct {
 	file     string
 	props    []c05Prop
 	supplied []c06Supply
+	cond     int // include: 0 unconditional, 1 chosen by a true v-if, 2 chosen as the v-else of a false v-if, 3 by a true v-else-if
 }
 
 func c06Coq(ts []*c06Tpl) string {
@@ -104,6 +105,16 @@ func c06Src(ts []*c06Tpl) string {
 				default:
 					attrs += fmt.Sprintf(` :%s="%s"`, p.name, p.path)
 				}
+			}
+			switch t.cond { // a condition that holds changes nothing: the include is the chosen branch
+			case 1:
+				attrs += ` v-if="1 == 1"`
+			case 2:
+				sb.WriteString(`<p v-if="1 == 2">no</p>`)
+				attrs += ` v-else`
+			case 3:
+				sb.WriteString(`<p v-if="1 == 2">no</p>`)
+				attrs += ` v-else-if="2 == 2"`
 			}
 			fmt.Fprintf(&sb, `<template include="%s"%s>`, t.file, attrs)
 			for _, s := range t.supplied {
@@ -209,6 +220,9 @@ func (g *c06Gen) include(depth int, files []string) *c06Tpl {
 		t.props = append(t.props, c05Prop{name: "who", kind: "static", text: "shadowed-who"})
 	}
 	t.supplied = g.supplies(depth, files)
+	if g.r.Intn(4) == 0 {
+		t.cond = 1 + g.r.Intn(3)
+	}
 	return t
 }
 
